@@ -197,39 +197,50 @@ def propAt (props : Props) (p : Path) : Option Ty := (props.find? (fun e => e.1 
 def templatesOf (props : Props) : List (Path × Str) :=
   props.filterMap fun e => match e.2 with | .tvar n => some (e.1, n) | _ => none
 
-/-- the attribute indices of `key` from the second level on; with `skipUnion` the index of a `Union` symbol itself is left out
-    (template.py:310-320) -/
-def normMids (props : Props) (skipUnion : Bool) (key : Path) : List Nat :=
-  (List.range (key.length - 2)).filterMap fun j =>
-    let b := key.take (j + 2)
-    match propAt props b with
-    | some t => if skipUnion && t.className = s_Union then none else b.getLast?
-    | none => none
+/-- the loop of `_normalize_props` over one key (template.py:313-321): `pre` = the path walked so far (the parent of the next
+    index); an index directly below a `Union` symbol is left out on the schema side (`skipUnion`), every other index is kept -/
+def normFrom (props : Props) (skipUnion : Bool) (pre : Path) : List Nat → List Nat
+  | [] => []
+  | i :: rest =>
+    let keep : Bool := match propAt props pre with
+      | some t => !(skipUnion && t.className = s_Union)
+      | none => true
+    (if keep then [i] else []) ++ normFrom props skipUnion (pre ++ [i]) rest
+
+/-- the normalised elements of `key`: its attribute indices from the second path element on (68f934e: the position inside a
+    Union is dropped, not the position of the Union) -/
+def normIdx (props : Props) (skipUnion : Bool) (key : Path) : List Nat :=
+  match key with
+  | [] => []
+  | r :: rest => normFrom props skipUnion [r] rest
 
 /-- one entry of `_normalize_props`: only leaf paths below the first level are kept (template.py:296-308) -/
 def normEntry (props : Props) (skipUnion : Bool) (e : Path × Ty) : Option (Path × List Nat) :=
-  if e.1.length > 1 && e.2.attrs = .nil then some (e.1, normMids props skipUnion e.1 ++ e.1.getLast?.toList) else none
+  if e.1.length > 1 && e.2.attrs = .nil then some (e.1, normIdx props skipUnion e.1) else none
 
-/-- `_normalize_props` (template.py:284-336); `skipUnion` = the schema side -/
+/-- `_normalize_props` (template.py:284-323); `skipUnion` = the schema side -/
 def normalizeProps (props : Props) (skipUnion : Bool) : List (Path × List Nat) :=
   props.filterMap (normEntry props skipUnion)
 
-/-- the candidate test of `_find_actual_path` for one normalised actual entry (template.py:357-366) -/
-def hitOf (begin : Path) (n : Nat) (e : Path × List Nat) : Option Path :=
+/-- the candidate test of `_find_actual_path` for one normalised actual entry (template.py:345-360): the actual elements have
+    to START WITH the schema's elements (68f934e; before: only as many or more of them) -/
+def hitOf (begin : Path) (schemaElems : List Nat) (e : Path × List Nat) : Option Path :=
+  let n := schemaElems.length
   if begin.isPrefixOf e.1 then
-    if e.2.length = n then some e.1
-    else if e.2.length > n then some (e.1.take (e.1.length - (e.2.length - n)))
-    else none
+    if e.2.length < n then none
+    else if e.2.take n ≠ schemaElems then none
+    else if e.2.length = n then some e.1
+    else some (e.1.take (e.1.length - (e.2.length - n)))
   else none
 
-/-- `_find_actual_path` (template.py:338-372) -/
+/-- `_find_actual_path` (template.py:325-368) -/
 def findActualPath (schemaPath : Path) (normSchema normActual : List (Path × List Nat)) (actual : Props) : Option Path :=
   if schemaPath.length = 1 then some schemaPath
   else
     match (normSchema.find? (fun e => e.1 = schemaPath)).map (·.2) with
     | none => none          -- KeyError in the real code; a template symbol is always a leaf
     | some schemaElems =>
-      match normActual.findSome? (hitOf (schemaPath.take 2) schemaElems.length) with
+      match normActual.findSome? (hitOf (schemaPath.take 2) schemaElems) with
       | some p => some p
       | none =>
         let first := schemaPath.take 1
@@ -240,28 +251,39 @@ def putUpdate (acc : List (Path × Path)) (k v : Path) : List (Path × Path) :=
   | [] => [(k, v)]
   | (k', v') :: rest => if k' = k then (k, v) :: rest else (k', v') :: putUpdate rest k v
 
-/-- inner loop of `make_updates` (template.py:283-295) for one target template -/
-def updatesFor (tp : Path) (tn : Str) (schemaTemps : List (Path × Str)) (normS normA : List (Path × List Nat)) (actual : Props)
+/-- the symbol at `p` is of class `c` (`type_is`) -/
+def classAt (props : Props) (p : Path) (c : Str) : Bool :=
+  match propAt props p with | some t => decide (t.className = c) | none => false
+
+/-- `None` given where the schema has a type variable directly below a `Union` (`T | None`): the `None` matched the Union's own
+    `None`, nothing is bound (template.py:276-279, 68f934e) -/
+def noneForOptional (schema actual : Props) (sp found : Path) : Bool :=
+  classAt schema sp.dropLast s_Union && classAt actual found s_None
+
+/-- inner loop of `make_updates` (template.py:267-287) for one target template -/
+def updatesFor (tp : Path) (tn : Str) (schemaTemps : List (Path × Str)) (schema : Props) (normS normA : List (Path × List Nat)) (actual : Props)
     (acc : List (Path × Path)) : List (Path × Path) :=
   match schemaTemps with
   | [] => acc
   | (sp, sn) :: rest =>
-    if sn ≠ tn then updatesFor tp tn rest normS normA actual acc
+    if sn ≠ tn then updatesFor tp tn rest schema normS normA actual acc
     else
       match findActualPath sp normS normA actual with
-      | none => updatesFor tp tn rest normS normA actual acc
+      | none => updatesFor tp tn rest schema normS normA actual acc
       | some found =>
-        let acc := putUpdate acc tp found
-        match propAt actual found with
-        | some (.tvar _) => updatesFor tp tn rest normS normA actual acc
-        | _ => acc
+        if noneForOptional schema actual sp found then updatesFor tp tn rest schema normS normA actual acc
+        else
+          let acc := putUpdate acc tp found
+          match propAt actual found with
+          | some (.tvar _) => updatesFor tp tn rest schema normS normA actual acc
+          | _ => acc
 
-/-- `make_updates` (template.py:266-297) -/
+/-- `make_updates` (template.py:251-289) -/
 def makeUpdates (targets schemaTemps : List (Path × Str)) (schema actual : Props) : List (Path × Path) :=
   let normS := normalizeProps schema true
   -- the actual types keep their Union levels (template.py:265-266): a Union actual type is one type
   let normA := normalizeProps actual false
-  targets.foldl (fun acc t => updatesFor t.1 t.2 schemaTemps normS normA actual acc) []
+  targets.foldl (fun acc t => updatesFor t.1 t.2 schemaTemps schema normS normA actual acc) []
 
 mutual
 /-- `seqs.update(attrs, path, value, iter_key='attrs')` -/
